@@ -17,7 +17,8 @@ A *plan* is a JSON list of fault entries, fired in order (a chain):
         armed once the previous entry has fired; fires at the n-th later call of that kind ("any" = any kind)
 
 "before": the call is not performed, a genuine sqlite3.OperationalError / sqlite3.IntegrityError is raised instead;
-"after":  the call is performed (its effect on the database is real) and then the error is raised;
+"after":  the call is performed (its effect on the database is real) and then the error is raised; a statement that
+          was executed is run to completion first, so that no active statement outlives the failed call;
 "crash":  os._exit(137) before / after performing the call (only meaningful in a child process).
 "park":   the calling thread stops for ever right before / after the call (no unwinding, no cleanup code runs) after
           setting `rec.parked`; used by crash runners that freeze many independent runs at their fault points in one
@@ -188,6 +189,13 @@ class Recorder(object):
                 if undo is not None:
                     undo()
                 crec.closed = True
+            if kind in ('execute', 'executemany'):
+                # a driver that reports an error for a statement does not leave that statement active (an active SELECT
+                # would keep its SHARED file lock for as long as the cursor object lives): run it to completion first
+                try:
+                    res.fetchall()
+                except Exception:
+                    pass
             entry['result'] = 'injected'
             raise EXC[fault['exc']]('%s #%s after %s' % (MARK, idx, kind))
         return res
